@@ -40,7 +40,7 @@ TRUSTED_BASE = [
 ]
 ASSUMPTIONS = [
     "eigh contract (A3): ascending real eigenvalues, square orthogonal eigenvector matrix; flip = reversal of one axis; lemma: reversing U's columns, S and V's rows together keeps U diag(S) V and turns ascending into non-increasing",
-    "randomized_range_finder by contract (documented shape, orthonormal columns; 'captures the range when n_dims covers the rank' is Halko et al., not proved): its body (random draw + QR power iterations) and the clipped / rank-deficient case of symeig_svd are covered only by the bounded stand-in",
+    "randomized_range_finder enters randomized_svd by contract (documented shape, orthonormal columns); its body is proved to perform the re-orthonormalised power iteration with qr by contract (n_dims <= min(shape)); 'captures the range when n_dims covers the rank' is Halko et al., not proved; n_dims > min(shape) and the clipped / rank-deficient case of symeig_svd are covered only by the bounded stand-in",
     "svd_flip at enumerated shapes up to 3x2 / 2x3 with 1-2 components, factors without a zero deciding column (true of singular vectors)",
     "make_svd_non_negative at enumerated shapes up to 3x2 / 2x3 (3x3 thorough) with 1-2 (3) components; singular vectors enter as 'not zero', singular values as non-negative; the NNDSVDa fill only with one component",
 ]
@@ -327,6 +327,62 @@ def obligations(tier):
                 obs.append(GOb(PID, f"{PID}/tenalg.svd:randomized_svd/range finder and inner SVD arguments ∧ composition ∧ orthonormality[{case}, n_oversamples={over}, {dt}]", "tensorly.tenalg.svd:randomized_svd", setup, call, post,
                                tenalg="core", instance=dict(case=case, n_oversamples=over, dtype=dt), clause="what the range finder and the inner SVD receive; U diag(S) V = projection of the matrix on the sampled range; orthonormal factors",
                                forall=["matrix sizes", "n_eigenvecs", "entries"], enumerated=["case", "n_oversamples"], assumptions=rs_pre))
+
+    # ====================================================================== randomized_range_finder: the body against the contracts of qr and the generator
+    # qr enters by contract (A3: reduced QR of a tall matrix, Q with orthonormal columns), the generator's draw is an arbitrary matrix. Proved: one draw of a
+    # (columns of A) x n_dims matrix from the generator made of the caller's random_state, 1 + 2 n_iter factorisations - of A Omega first, then alternately of Aᴴ Q and A Q
+    # (conjugate transpose: the power iteration (A Aᴴ)^q A Omega of Halko et al., re-orthonormalised at every step) -, and the Q of the last one returned: shape
+    # (rows of A, n_dims), orthonormal columns by the qr contract. That this subspace captures the range of A is the probabilistic statement of Halko et al. - not proved.
+    d_ = atom("d")
+    for n_it in (0, 2) + ((1,) if tier == "thorough" else ()):
+        for dt in ("float64", "complex128"):
+            def setup(S, dt=dt):
+                return dict(_S=S, A=S.input("A", [n0, n1], dt), d=d_)
+            def call(I, n_it=n_it):
+                S = I["_S"]
+                qrs, draws, seeds = [], [], []
+                class Gen:
+                    def normal(self, loc=0.0, scale=1.0, size=None):
+                        om = G.opaque_tensor("OMEGA", list(size), "float64") if S.name == "sym" else S.record("OMEGA", np.random.RandomState(5).normal(size=tuple(int(x) for x in size)))
+                        draws.append(dict(size=tuple(size), out=om, loc=loc, scale=scale))
+                        return om
+                def check_random_state(seed):
+                    seeds.append(seed)
+                    return Gen()
+                def qr(a, mode="reduced"):
+                    if S.name == "sym":
+                        Q = G.opaque_tensor("QRQ", [a.shape[0], a.shape[1]], a.dtype, ortho_axis=0)
+                        R_ = G.opaque_tensor("QRR", [a.shape[1], a.shape[1]], a.dtype)
+                    else:
+                        Q, R_ = np.linalg.qr(a)
+                        Q, R_ = S.record("QRQ", Q), S.record("QRR", R_)
+                    qrs.append(dict(a=a, Q=Q, mode=mode))
+                    return Q, R_
+                with stubbed(tl, qr=qr, check_random_state=check_random_state):
+                    out = sv.randomized_range_finder(I["A"], I["d"], n_iter=n_it, random_state="the caller's generator")
+                return dict(out=out, qrs=qrs, draws=draws, seeds=seeds)
+            def post(S, I, r, n_it=n_it):
+                a, b = S.shape(I["A"])
+                A = I["A"]
+                out = [("the generator is made of the caller's random_state, once", r["seeds"], ["the caller's generator"]),
+                       ("one draw", len(r["draws"]), 1),
+                       ("1 + 2 n_iter reduced QR factorisations", [len(r["qrs"])] + [c["mode"] for c in r["qrs"]], [1 + 2 * n_it] + ["reduced"] * (1 + 2 * n_it))]
+                if len(r["qrs"]) != 1 + 2 * n_it or len(r["draws"]) != 1:
+                    return out
+                # (an i.i.d. normal matrix may be drawn in either orientation: the clause takes the draw as the code shaped it, and demands a (columns of A) x n_dims sketch)
+                sz = r["draws"][0]["size"]
+                direct = (SInt.lift(sz[0]).same(b) and SInt.lift(sz[1]).same(I["d"])) if S.name == "sym" else (int(sz[0]), int(sz[1])) == (b, int(I["d"]))
+                out.append(("the first factorisation is of A Omega, Omega the drawn (columns of A) x n_dims matrix", r["qrs"][0]["a"], S.einsum("ij,jq->iq" if direct else "ij,qj->iq", A, r["draws"][0]["out"])))
+                for i in range(n_it):
+                    out.append((f"power iteration {i}: Aᴴ Q is factorised (conjugate transpose)", r["qrs"][2 * i + 1]["a"], S.einsum("ij,iq->jq", S.conj(A), r["qrs"][2 * i]["Q"])))
+                    out.append((f"power iteration {i}: then A Q", r["qrs"][2 * i + 2]["a"], S.einsum("ij,jq->iq", A, r["qrs"][2 * i + 1]["Q"])))
+                out += [("the Q of the last factorisation is returned", r["out"], r["qrs"][-1]["Q"]),
+                        ("shape (rows of A, n_dims)", list(S.shape(r["out"])), [a, I["d"] if S.name == "sym" else int(I["d"])]),
+                        ("orthonormal columns", S.einsum("ia,ib->ab", S.conj(r["out"]), r["out"]), S.eye(S.shape(r["out"])[1]))]
+                return out
+            obs.append(GOb(PID, f"{PID}/tenalg.svd:randomized_range_finder/draw ∧ QR power iterations of A Omega ∧ orthonormal Q of the last one[n_iter={n_it}, {dt}]", "tensorly.tenalg.svd:randomized_range_finder", setup, call, post,
+                           tenalg="core", instance=dict(n_iter=n_it, dtype=dt), clause="one draw from the caller's generator; re-orthonormalised power iteration with the conjugate transpose; orthonormal basis of documented shape",
+                           forall=["matrix sizes", "n_dims <= min(shape)", "entries", "drawn matrix"], enumerated=["n_iter", "dtype"], assumptions=lambda I: [I["d"] <= n0, I["d"] <= n1]))
 
     # ====================================================================== symeig_svd: the wrapper logic against the contracts of eigh and flip
     # eigh enters by contract (A3: ascending real eigenvalues w, square orthogonal Q with Q diag(w) Qᵀ = its symmetric argument), flip as the reversal of one axis
